@@ -2,6 +2,8 @@ module verif/sim
 
 go 1.22
 
-require github.com/twpayne/go-geom v0.0.0
+require github.com/twpayne/go-geom v1.5.7
+
+require github.com/twpayne/go-kml/v3 v3.2.1 // indirect
 
 replace github.com/twpayne/go-geom => /repo
